@@ -1131,7 +1131,7 @@ pub fn main(args: &[String]) -> i32 {
                 }
                 out.flush().unwrap();
             }
-            "applypatch" | "sha" | "wfm" | "sdiff" | "varint" | "chunked" | "bsdiff" | "json" | "b64" => {}
+            "applypatch" | "sha" | "wfm" | "sdiff" | "varint" | "chunked" | "bsdiff" | "json" | "b64" | "jsonbody" => {}
             "t0" | "t1" | "t2" => {
                 let idx: usize = toks[0][1..].parse().unwrap();
                 while sched_threads.len() <= idx {
